@@ -364,6 +364,8 @@ func (c18) Generate(r *rand.Rand, t string) []*Case {
 		}
 	}
 
+	out = append(out, c18GennamesStub(r, t)...) // stream gennames-stub (c18_gennames.go)
+
 	if t != "thorough" {
 		return out
 	}
@@ -441,9 +443,17 @@ func (c18) Generate(r *rand.Rand, t string) []*Case {
 	return out
 }
 
-func (c18) Compare(c *Case, exp, got []hist.Obs) string { return CompareAll(exp, got) }
+func (c18) Compare(c *Case, exp, got []hist.Obs) string {
+	if c.Stream == "gennames-stub" {
+		return c18StubCompare(c, exp, got) // c18_gennames.go
+	}
+	return CompareAll(exp, got)
+}
 
 func (c18) Oracle(c *Case, got []hist.Obs) string {
+	if c.Stream == "gennames-stub" {
+		return c18StubOracle(c, got) // c18_gennames.go
+	}
 	if m, ok := c.Meta["fail"].(string); ok {
 		return m
 	}
